@@ -332,3 +332,20 @@ PROPS["C16"] = {
     ),
     "note": "Bar segment width, percentage, redraw spacing under a clock and residue of longer frames are arithmetic/timing and not decided.",
 }
+
+SOURCE_COMMITS += ["1dc5755", "50f0622"]  # C13 fixes: missing descriptions; hidden default sub-command in USAGE
+
+PROPS["C13"] = {
+    "claimed": True,
+    "technique": "static analysis: flow-sensitive nullness dataflow from getters declared Optional, with dangerous-parameter and dangerous-field summaries across components; hidden-test dominance for every command loop (in the loop or in the callee); listing-coverage table; layout lifetime",
+    "text": (
+        "Decides: (R1) no value read from a getter whose type comment declares Optional (option/argument descriptions, help texts, "
+        "names) reaches a string operation un-narrowed - operand of +/+=, method receiver, textwrap.wrap/re.sub/len argument - directly "
+        "or by being handed to a component that stores it in a field another method dereferences (LabeledParagraph text -> "
+        "textwrap.wrap); (R2) every loop over a command collection in the help renderers that produces page elements is dominated per "
+        "iteration by the false edge of is_hidden(), in the loop or in the callee it delegates to; (R3) arguments are listed with the "
+        "inherited ones, options as own plus inherited, both names of an option are printed, named sub-commands are listed; (R4) each "
+        "render builds its own layout."
+    ),
+    "note": "No line wider than the terminal, 'help <path>' == '<path> --help', and success for every width are numeric/text and not decided.",
+}
